@@ -298,3 +298,81 @@ func (s FieldSpec) MontRoundPair(t *rapid.T, label string) (x, y *big.Int, cls s
 	y = build(bi(1), label+"y")
 	return x, y, "montround:" + cls + names[k]
 }
+
+// MontFinalSubPair draws operands (canonical values) whose word-by-word Montgomery product leaves, BEFORE the
+// final conditional subtraction, exactly a chosen unreduced value V in [q, 2q) (V is unique: (X*Y + m*q)/R with
+// m = -X*Y/q mod R, whatever the word size of the implementation). V is built on the borrow boundaries of the
+// subtraction V - q: for a 32-bit word index j, word j of V equals word j of q while the part below it is smaller
+// than q's (a borrow arrives at an all-equal word and must be propagated), or V = q (result 0), V = q+1, V = 2q-1.
+// A uniform operand pair hits such a V with probability about 2^-32 per word. The pair is found by drawing the
+// stored form X and solving Y = V*R/X, keeping the first X (of at most 12) for which the unreduced value is V and
+// not V-q; if none is found the last pair is returned with class "finalsub:fallback".
+func (s FieldSpec) MontFinalSubPair(t *rapid.T, label string) (x, y *big.Int, cls string) {
+	nbits := uint(s.NLimbs * s.LimbBits)
+	R := new(big.Int).Lsh(bi(1), nbits)
+	qinv := new(big.Int).ModInverse(s.Q, R)
+	nw := int(nbits / 32)
+	var V *big.Int
+	switch kind := rapid.IntRange(0, 9).Draw(t, label+"kind"); {
+	case kind == 0:
+		V, cls = new(big.Int).Set(s.Q), "finalsub:V=q"
+	case kind == 1:
+		V, cls = new(big.Int).Add(s.Q, bi(1)), "finalsub:V=q+1"
+	case kind == 2:
+		V, cls = new(big.Int).Sub(new(big.Int).Lsh(s.Q, 1), bi(1)), "finalsub:V=2q-1"
+	default:
+		j := 0
+		if nw > 2 {
+			j = rapid.IntRange(1, nw-2).Draw(t, label+"word")
+		}
+		low := new(big.Int).And(s.Q, new(big.Int).Sub(new(big.Int).Lsh(bi(1), uint(32*j)), bi(1)))
+		b := bi(0)
+		if low.Sign() > 0 {
+			switch rapid.IntRange(0, 2).Draw(t, label+"b") {
+			case 0:
+				b = bi(1)
+			case 1:
+				b = new(big.Int).Set(low)
+			default:
+				b = new(big.Int).Rsh(low, 1)
+				if b.Sign() == 0 {
+					b = bi(1)
+				}
+			}
+		}
+		a := new(big.Int).Lsh(bi(int64(rapid.IntRange(1, 2).Draw(t, label+"a"))), uint(32*(j+1)))
+		V = new(big.Int).Add(s.Q, a)
+		V.Sub(V, b)
+		if V.Cmp(new(big.Int).Lsh(s.Q, 1)) >= 0 || V.Cmp(s.Q) < 0 { // tiny fields: stay inside [q, 2q)
+			V, cls = new(big.Int).Set(s.Q), "finalsub:V=q"
+		} else {
+			cls = fmt.Sprintf("finalsub:borrow_into_equal_word%d", j)
+		}
+	}
+	vr := new(big.Int).Mul(V, R)
+	vr.Mod(vr, s.Q)
+	var X, Y *big.Int
+	found := false
+	for try := 0; try < 12 && !found; try++ {
+		X = s.Uniform(t, label+"X")
+		if X.Sign() == 0 {
+			X = bi(1)
+		}
+		Y = new(big.Int).Mul(vr, new(big.Int).ModInverse(X, s.Q))
+		Y.Mod(Y, s.Q)
+		// unreduced Montgomery product of the stored forms
+		xy := new(big.Int).Mul(X, Y)
+		m := new(big.Int).Mul(xy, qinv)
+		m.Neg(m).Mod(m, R)
+		T := new(big.Int).Add(xy, m.Mul(m, s.Q))
+		T.Rsh(T, nbits)
+		found = T.Cmp(V) == 0
+	}
+	if !found {
+		cls = "finalsub:fallback"
+	}
+	ri := s.rinv()
+	x = new(big.Int).Mod(new(big.Int).Mul(X, ri), s.Q)
+	y = new(big.Int).Mod(new(big.Int).Mul(Y, ri), s.Q)
+	return x, y, cls
+}
